@@ -488,6 +488,20 @@ impl Real {
                 };
                 self.finish_node(*out, doc, res)
             }
+            Op::Normalize { el } => {
+                let (n, _) = match self.node(*el) {
+                    Some(x) => x,
+                    None => return Outcome::Skipped,
+                };
+                let res = match &n {
+                    XmlNode::Element(e) => guarded(|| {
+                        e.normalize();
+                        Ok(())
+                    }),
+                    _ => return Outcome::Skipped,
+                };
+                self.finish_unit(res)
+            }
             Op::Nav { node, which, out } => {
                 let (n, doc) = match self.node(*node) {
                     Some(x) => x,
